@@ -8,7 +8,7 @@ everything the library's live allocation count (malloc/free interposed at link t
 import json, os, subprocess, vlib, gen, hist
 from props import histprop, undel
 PID = "C09"
-MIX = [("names", {}), ("file", {}), ("dirc", {}), ("full", {}), ("extbound", {}), ("extfull", {}), ("namepairs", {"n": 25}), ("ro", {}), ("rdb", {}), ("geom", {}), ("dircspill", {})]
+MIX = [("names", {}), ("file", {}), ("dirc", {}), ("full", {}), ("extbound", {}), ("extfull", {}), ("namepairs", {"n": 25}), ("ro", {}), ("rdb", {}), ("geom", {}), ("dircspill", {}), ("rdbfull", {})]
 
 def run(res):
     res.cov["rule"] = ("seeded histories of every profile (namespace with colliding and hostile-character names, files at block/extension boundaries, "
